@@ -55,6 +55,94 @@ def byte_consts_compared(body):
     return vals
 
 
+def _optional_keys_accepted(facts, res, w, r):
+    """the writer emits a key only when the block has something to put under it (a commit that stores nothing new writes no pack
+    reference, a first commit writes no parents); a loader that turns the absence of such a key into a rejection discards blocks
+    the writer legitimately produced - the commit was acknowledged and is gone after reopening."""
+    from ..common import members_of, assigns_of_return
+    opt = set()
+    for bi, t in w.calls():
+        c = t.callee
+        if c is None or c.name != "insert" or "serde_json::Map" not in c.path or len(t.args) < 3:
+            continue
+        ks = [x[2] for x in walk(arg_term(w, t, 1)) if x[0] == "const" and x[1] == "str"]
+        if ks and any(l.kind in ("variant", "call", "cmp") for l in lits_of(w, bi, facts)):
+            opt.update(ks)
+    res.instance("K2", "keys Delta::to_json writes only when there is something to write (optional for the loader): %s" % sorted(opt), w.loc())
+    res.floor("K2", "conditionally written block keys", len(opt), 3)
+
+    def key_of_presence(l, body):
+        """K if literal l says 'key K is present' (truth) / absent (not truth): returns (K, present?)"""
+        t = l.term
+        if l.kind == "call" and callee_name(t) == "contains_key":
+            ks = [x[2] for x in walk(t) if x[0] == "const" and x[1] == "str" and x[2] in opt]
+            if ks:
+                return ks[0], l.truth is True
+        if l.kind == "variant" and l.variants and l.variants <= {"Some", "None"}:
+            pt = peel(t)
+            if pt[0] == "call" and callee_name(pt) == "get":
+                ks = [x[2] for x in walk(pt) if x[0] == "const" and x[1] == "str" and x[2] in opt]
+                if ks:
+                    return ks[0], l.variants == {"Some"}
+        return None
+
+    n = 0
+    for m in members_of(facts, r):
+        du = du_of(m)
+
+        def holder_key(t):
+            """the optional key a local stands for: one of its definitions sits under 'K present', another is None"""
+            hops = 0
+            while hops < 12 and t[0] in ("ref", "deref", "cast"):
+                t = t[1]
+                hops += 1
+            if t[0] != "var":
+                return None
+            found = None
+            for d in du.full_defs(t[1]):
+                for l in lits_of(m, d.block, facts):
+                    kp = key_of_presence(l, m)
+                    if kp and kp[1]:
+                        found = kp[0]
+            return found
+
+        sites = [(eb, st.line) for eb, st in assigns_of_return(m, "Err")]
+        for bi, t in m.calls():
+            if t.callee is not None and t.callee.name == "from_residual" and t.dest is not None and t.dest.local == 0:
+                sites.append((bi, t.line))
+        for eb, line in sites:
+            ls = lits_of(m, eb, facts)
+            present = set()
+            absent = []
+            for l in ls:
+                kp = key_of_presence(l, m)
+                if kp:
+                    (present.add(kp[0]) if kp[1] else absent.append((kp[0], l)))
+                    continue
+                hk = None
+                if l.kind == "call" and callee_name(l.term) in ("is_none", "is_some") and l.term[2]:
+                    hk = holder_key(l.term[2][0])
+                    if hk and (callee_name(l.term) == "is_none") == (l.truth is True):
+                        absent.append((hk, l))
+                    elif hk:
+                        present.add(hk)
+                elif l.kind == "variant" and l.variants and l.variants <= {"Some", "None"}:
+                    hk = holder_key(l.term)
+                    if hk and l.variants == {"None"}:
+                        absent.append((hk, l))
+                    elif hk:
+                        present.add(hk)
+            n += 1
+            for k_, l in absent:
+                if k_ in present:
+                    continue
+                res.violation("K2", "loader|requires-optional-key:%s" % k_,
+                              "%s rejects a block because the key %r is absent (%s), but Delta::to_json writes that key only when the block has "
+                              "something to put under it: a block the writer produced is rejected on reopen" % (m.path, k_, l), m.loc(line))
+    res.instance("K2", "no rejection in the block loader is conditioned on the absence of an optionally written key (%d rejection sites)" % n, r.loc())
+    res.floor("K2", "rejection sites of the block loader examined", n, 8)
+
+
 def run(facts, res):
     R = roles_of(facts)
     res.rule("K1", "the pack re-indexer is JSON-string-aware: comparing pack bytes with '{' and '}' implies comparing with '\"' and '\\\\'")
@@ -166,6 +254,8 @@ def run(facts, res):
                               "such records whenever a staged revision has a parent: a first commit that contains an update is written and then "
                               "rejected on reopen" % (k_, l), r.loc(st.line))
     res.instance("K2", "loader rejections under an arity test carry no condition beyond per-element shape checks", r.loc())
+    # K2h: every key Delta::to_json writes conditionally is optional for the loader: no rejection is conditioned on its absence
+    _optional_keys_accepted(facts, res, w, r)
     # positions
     wpos = {}
     for n, els, ln, bi in arr:
